@@ -46,7 +46,7 @@ def toC(v):
 
 class ArrTr:
     def __init__(self, arrays, tree=None, opaque=None, opaque_calls=(), size_attrs=(), identity_calls=(), identity_attrs=(),
-                 inline=None):
+                 inline=None, axis_name=None, axis_labels=None, passthrough=None):
         # arrays: list of (python name, 'R' | 'C') ; element tuple nests to the left: ((a, b), c) ...
         self.arrays = arrays
         self.env = {}          # local name -> ('ast', node) | ('val', V) | ('len',) | ('leaf', k)
@@ -59,6 +59,10 @@ class ArrTr:
         self.identity_calls = set(identity_calls)   # ensure_array / ensure_scalar: the identity on values
         self.identity_attrs = set(identity_attrs)   # .values of a DataArray
         self.inline = dict(inline or {})            # dotted call name -> (qualname of the method in the same file, its parameters)
+        self.axis_name = axis_name                  # e.g. 'vector': the arrays are the components of fields along this axis
+        self.axis_labels = list(axis_labels or [])  # its labels in order, e.g. ['x', 'y', 'z']
+        self.restrict = None
+        self.passthrough = dict(passthrough or {})  # call name -> index of the argument it returns with metadata attached (finalize)
 
     LEN = "(IZR (Z.of_nat (List.length cs)))"
 
@@ -196,20 +200,38 @@ class ArrTr:
         return V("C", ("(%s * %s - %s * %s)" % (ar, br, ai, bi), "(%s * %s + %s * %s)" % (ar, bi, ai, br)), arr)
 
     def call(self, e, mode):
-        if e.keywords:
+        # X.sel(vector=['x', 'y']) : the first two entries along the (only) axis, when that axis is declared as the 3-component
+        # 'vector' axis of a field (axis_labels = ['x', 'y', 'z'])
+        if isinstance(e.func, ast.Attribute) and e.func.attr == "sel" and not e.args and len(e.keywords) == 1 \
+                and e.keywords[0].arg == self.axis_name and isinstance(e.keywords[0].value, ast.List) and self.axis_labels:
+            labs = [getattr(x, "value", None) for x in e.keywords[0].value.elts]
+            if labs != self.axis_labels[:len(labs)] or not labs:
+                raise Unsupported("selection %r along %s" % (labs, self.axis_name))
+            if self.restrict not in (None, len(labs)):
+                raise Unsupported("two different selections along %s" % self.axis_name)
+            self.restrict = len(labs)
+            return self.ex(e.func.value, mode)
+        is_sum = isinstance(e.func, ast.Attribute) and e.func.attr == "sum" and not e.args \
+            and not (_dotted(e.func) or "").startswith("np.")
+        if is_sum and len(e.keywords) == 1 and e.keywords[0].arg == "dim" and isinstance(e.keywords[0].value, ast.Name) \
+                and e.keywords[0].value.id == self.axis_name and self.axis_labels:
+            pass        # .sum(dim=vector): the reduction over the declared axis
+        elif e.keywords:
             raise Unsupported("keyword arguments")
         # method .sum()
-        if isinstance(e.func, ast.Attribute) and e.func.attr == "sum" and not e.args and _dotted(e.func) is None \
-                or (isinstance(e.func, ast.Attribute) and e.func.attr == "sum" and not e.args
-                    and not (_dotted(e.func) or "").startswith("np.")):
+        if is_sum:
             if mode is not None:
                 raise Unsupported("nested reduction")
             operand = e.func.value
             adj = self.has_slice(operand)
+            before = self.restrict
+            self.restrict = None
             v = self.ex(operand, "req" if adj else None)
             if not v.arr:
                 raise Unsupported(".sum() of a value that is not an array")
-            binder, lst = ("(fun (l0 : Z) (cc : @E@ * @E@) => %s)", "(adjacent cs)") if adj else ("(fun (l0 : Z) (c : @E@) => %s)", "cs")
+            whole = "cs" if self.restrict is None else "(firstn %d cs)" % self.restrict
+            self.restrict = before
+            binder, lst = ("(fun (l0 : Z) (cc : @E@ * @E@) => %s)", "(adjacent cs)") if adj else ("(fun (l0 : Z) (c : @E@) => %s)", whole)
             # each reduction is let-bound once (it is a scalar of the enclosing function, never under a binder)
             self.nsum += 1
             nm = "sum%d" % self.nsum
@@ -220,6 +242,8 @@ class ArrTr:
             self.lets.append("let %s := asum %s 0 %s in\n  " % (nm, binder % toR(v).code, lst))
             return V("R", nm, False)
         d = _dotted(e.func)
+        if d in self.passthrough and len(e.args) > self.passthrough[d]:
+            return self.ex(e.args[self.passthrough[d]], mode)
         if d in ("np.arange", "arange"):
             if len(e.args) == 1 and isinstance(e.args[0], ast.Name) and self.env.get(e.args[0].id) == ("len",):
                 if mode == "req":
@@ -376,7 +400,8 @@ def translate(repo, relpath, qualname, name, arrays, params=None, **opts):
         tree = ast.parse(f.read())
     fn = find_function(tree, qualname)
     a = fn.args
-    if a.vararg or a.kwarg or a.kwonlyargs or a.posonlyargs or a.defaults:
+    if a.vararg or a.kwarg or a.kwonlyargs or a.posonlyargs or (a.defaults and params is None) \
+            or not all(isinstance(dflt, ast.Constant) for dflt in a.defaults):
         raise Unsupported("signature of %s" % qualname)
     pyargs = [x.arg for x in a.args if x.arg != "self"]
     if pyargs != (list(params) if params is not None else [n for n, _ in arrays]):
